@@ -113,6 +113,9 @@ class _ReaderOpenFileBase(RawIOBase):
     def __repr__(self):
         return f'<{type(self).__name__} path={self._path!r} info={self._info!r} reader={self._reader!r}>'
 
+    def close(self):
+        self.closed = True
+
     @_raise_if_file_closed
     def read(self, size: int = -1) -> bytes:
         if size < 0:
